@@ -20,6 +20,11 @@ open Chf.LockDiscipline
 /-- every Lock() of the request path has one of the accepted shapes -/
 theorem sites_ok : Chf.Gen.lockSites.all LockSite.ok = true := by decide
 
+/-- no request handler waits for the NF consumer (recharge notification) while it holds a subscriber or context
+    mutex: a consumer that answers late, never, or by sending a request of its own cannot keep the subscriber
+    blocked (regenerated fact `peerWaits`; the run-time side is the `notifyslow` / `notifyreenter` cases) -/
+theorem sites_prompt : Chf.Gen.lockSites.all LockSite.prompt = true := by decide
+
 /-- there is something to talk about: the subscriber lock is taken in create, update, release and recharge -/
 theorem sites_cover : 4 ≤ Chf.Gen.lockSites.length := by decide
 
